@@ -31,7 +31,7 @@ func ruleC19Structure(c *core.Ctx) {
 			o.At(fn.Site(cv.Call, "layer"))
 			o.Require(core.ObjOf(info, cv.Call.Args[1]) == out, "a decoder layer reads from %s instead of the chain built so far", core.ExprStr(cv.Call.Args[1]))
 		}
-		o.Require(n == 2, "expected the decryption layer and the filter loop, found %d Decode calls", n)
+		o.Shape(n == 2, "expected the decryption layer and the filter loop, found %d Decode calls", n)
 		for _, r := range g.Returns() {
 			rs := r.AST.(*ast.ReturnStmt)
 			if len(rs.Results) != 2 {
@@ -358,7 +358,7 @@ func ruleC19Structure(c *core.Ctx) {
 			}
 			o.Require(isAssign, "the result of %s is not kept", cv.Key)
 		}
-		o.Require(n >= 2, "expected the final Flush and the sink's Close in Writer.Close")
+		o.Shape(n >= 2, "expected the final Flush and the sink's Close in Writer.Close")
 	})
 }
 
@@ -455,7 +455,7 @@ func ruleDeferredErrorReachesCaller(c *core.Ctx) {
 	c.Check("C19-R7", "deferred-error-stores", "every error stored by a deferred closure goes into a named result of the function that defers it", func(o *core.Ob) {
 		o.Count(nDefers)
 		o.Fact("%d deferred closures inspected", nDefers)
-		o.Require(nDefers >= 8, "only %d deferred closures found", nDefers)
+		o.Shape(nDefers >= 8, "only %d deferred closures found", nDefers)
 		for _, b := range bad {
 			o.FailAt(b.fn.Site(b.node, ""), "%s: the deferred function stores an error in %s, which is not a named result of the enclosing function: the error never reaches the caller", c.Prog.Pos(b.node.Pos()), b.name)
 		}
